@@ -54,7 +54,7 @@ BATCH = {'quick': 24, 'thorough': 24}
 MIN_PER_SHARD = 2
 TIME = {'quick': 15, 'thorough': 800}
 
-FEATURES = cdefgen.DEFAULT_FEATURES | frozenset(['anon', 'anon_td', 'file', 'gvar_any', 'variadic'])
+FEATURES = cdefgen.DEFAULT_FEATURES | frozenset(['anon', 'anon_td', 'file', 'gvar_any', 'variadic', 'cycle'])
 
 BIG_LENGTHS = [255, 256, 65535, 65536, 2**24 - 1, 2**24, 2**24 + 1, 0x01020304, 0x7F000000, 2**31 - 1]
 
@@ -264,6 +264,13 @@ def _all_fields(d):
 
 def _one(spec, cuts, k, so, ctx, pack=0):
     decls = spec['decls']
+    # a forward-declared aggregate ('struct S *' used before 'struct S {...}') that is completed in a
+    # *later* include() level stays opaque for the types of the earlier module: known finding
+    cycle_pairs = [(i, i + 1) for i, d in enumerate(decls)
+                   if d['k'] == 'struct' and any(fn == 'mc' for fn, _t, _b in d['fields']) and i + 1 < len(decls)]
+    if any(any(i < c <= j for c in cuts) for i, j in cycle_pairs) and \
+            ctx.skip_known('include-completes-forward-declared-aggregate'):
+        cuts = [c for c in cuts if not any(i < c <= j for i, j in cycle_pairs)]
     levels = [lv for lv in cdefgen.split_chain(spec, cuts)]
     # an empty included level is legal but pointless; drop empty levels except the top one
     levels = [lv for lv in levels[:-1] if lv['decls']] + [levels[-1]]
